@@ -23,6 +23,7 @@
 //!   R17 a `for` over a range / `&V` / `V.iter()` whose body uses `continue` -> counted `while` (Verus: no continue in for-loops)
 //!   R18 arm abstraction (per function, listed arms kept): other arms of the same `match` -> arbitrary result + arbitrary change of listed places
 //!   R19 `opt.or_else(|| B)` / `unwrap_or_else(|| B)` / `ok_or_else(|| E)` -> `match`
+//!   R20 `M.entry(K).or_default().push(V)` (push_back / insert; or_insert_with(Vec::new) ..) -> `vx_entry_or_default_push(&mut M, K, V)` (prelude/entry.vrs)
 //!   R11 reference patterns in `for` / closure parameters / `Some(&x)` -> bind + deref
 //!   RS  pinned statement replacement   (request: replace_stmt)
 //!   RE  pinned expression replacement  (request: replace_expr)
@@ -725,6 +726,45 @@ impl<'a> VisitMut for Rw<'a> {
                 }
             }
         }
+        if self.enabled("R20") {
+            // M.entry(K).or_default().push(V)  (also push_back / insert; or_insert_with(Vec::new) etc.) -> vx_entry_or_default_<m>(&mut M, K, V)
+            let mut repl: Option<Expr> = None;
+            if let Expr::MethodCall(outer) = e {
+                let m = outer.method.to_string();
+                if outer.args.len() == 1 && matches!(m.as_str(), "push" | "push_back" | "insert") {
+                    if let Expr::MethodCall(mid) = &*outer.receiver {
+                        let mm = mid.method.to_string();
+                        let default_like = (mm == "or_default" && mid.args.is_empty())
+                            || (mm == "or_insert_with"
+                                && mid.args.len() == 1
+                                && matches!(
+                                    tnorm(&mid.args[0]).as_str(),
+                                    "Vec::new" | "VecDeque::new" | "HashSet::new" | "Default::default" | "std::collections::HashSet::new" | "std::collections::VecDeque::new"
+                                ));
+                        if default_like {
+                            if let Expr::MethodCall(inner) = &*mid.receiver {
+                                if inner.method == "entry" && inner.args.len() == 1 {
+                                    let map = &inner.receiver;
+                                    let k = &inner.args[0];
+                                    let v = &outer.args[0];
+                                    let f = Ident::new(&format!("vx_entry_or_default_{}", m), Span::call_site());
+                                    let mref: Expr = match &**map {
+                                        Expr::Path(_) => parse_quote!(&mut *#map),
+                                        _ => parse_quote!(&mut #map),
+                                    };
+                                    repl = Some(parse_quote!(#f(#mref, #k, #v)));
+                                }
+                            }
+                        }
+                    }
+                }
+            }
+            if let Some(r) = repl {
+                *e = r;
+                self.bump("R20.entry_or_default");
+                return;
+            }
+        }
         if self.enabled("R19") {
             // Option combinators with a zero-argument closure -> match
             let mut repl: Option<Expr> = None;
@@ -793,7 +833,7 @@ impl<'a> VisitMut for Rw<'a> {
         if self.enabled("R5") {
             if let Expr::MethodCall(mc) = e {
                 if mc.method == "extend" && mc.args.len() == 1 && mc.turbofish.is_none() {
-                    if let Expr::Path(_) = &mc.args[0] {
+                    {
                         let t = self.fresh("t");
                         let recv = &mc.receiver;
                         let arg = &mc.args[0];
@@ -982,6 +1022,51 @@ impl VisitMut for KeepArms {
         }
         visit_mut::visit_expr_match_mut(self, m);
     }
+}
+
+
+/// gives `.collect()` in result position of a Vec-returning function the turbofish `::<Vec<_>>` so that R1 can lower it
+struct TailCollect {
+    n: u32,
+}
+impl TailCollect {
+    fn fix(&mut self, e: &mut Expr) {
+        match e {
+            Expr::MethodCall(mc) if mc.method == "collect" && mc.args.is_empty() && mc.turbofish.is_none() => {
+                let tf: AngleBracketedGenericArguments = parse_quote!(::<Vec<_>>);
+                mc.turbofish = Some(tf);
+                self.n += 1;
+            }
+            Expr::If(i) => {
+                if let Some(Stmt::Expr(t, None)) = i.then_branch.stmts.last_mut() {
+                    self.fix(t);
+                }
+                if let Some((_, el)) = &mut i.else_branch {
+                    self.fix(el);
+                }
+            }
+            Expr::Block(b) => {
+                if let Some(Stmt::Expr(t, None)) = b.block.stmts.last_mut() {
+                    self.fix(t);
+                }
+            }
+            Expr::Match(m) => {
+                for a in m.arms.iter_mut() {
+                    self.fix(&mut a.body);
+                }
+            }
+            _ => {}
+        }
+    }
+}
+impl VisitMut for TailCollect {
+    fn visit_expr_return_mut(&mut self, r: &mut ExprReturn) {
+        if let Some(e) = &mut r.expr {
+            self.fix(e);
+        }
+        visit_mut::visit_expr_return_mut(self, r);
+    }
+    fn visit_expr_closure_mut(&mut self, _c: &mut ExprClosure) {}
 }
 
 // ---------------------------------------------------------------------------------------------
@@ -1461,6 +1546,15 @@ fn do_fn(items: &[Item], req: &ItemReq, feats: &[String]) -> std::result::Result
             FnArg::Receiver(r) => r.attrs.clear(),
             FnArg::Typed(t) => t.attrs.clear(),
         }
+    }
+    // `.collect()` in tail / return position of a function that returns Vec<..>: the target type is known
+    let ret_is_vec = matches!(&sig.output, ReturnType::Type(_, t) if matches!(&**t, Type::Path(tp) if tp.path.segments.last().map(|s| s.ident == "Vec").unwrap_or(false)));
+    if ret_is_vec {
+        let mut tc = TailCollect { n: 0 };
+        if let Some(Stmt::Expr(e, None)) = block.stmts.last_mut() {
+            tc.fix(e);
+        }
+        tc.visit_block_mut(&mut block);
     }
     rw.visit_block_mut(&mut block);
     if let Some(e) = rw.err {
